@@ -770,7 +770,7 @@ Proof.
   intros st ok st' HS H.
   assert (Hfail : ok = false -> st' = st).
   { intros ->. apply flush_fail. exact H. }
-  unfold flush_lexer in H. rewrite (p_flush_unfold st HS) || idtac.
+  unfold flush_lexer in H.
   destruct (negb (has_pending st)) eqn:Hp.
   - inversion H; subst ok st'. constructor; try reflexivity; try assumption.
     + apply ctl_le_refl.
